@@ -1000,3 +1000,213 @@ Proof.
   rewrite !in_app_iff. right. right. left.
   destruct (N.ltb_spec 0 (e_nocr s3)); [left; reflexivity|lia].
 Qed.
+
+(* ====================================================================== *)
+(* Connect JSON                                                            *)
+(* ====================================================================== *)
+Fixpoint dup_go (seen : list bytes) (l : list (bytes * json)) : option dup_err :=
+  match l with
+  | [] => None
+  | (k, v) :: r =>
+    if mem_bytes k seen then Some DupKey
+    else match check_dup v with Some e => Some e | None => dup_go (k :: seen) r end
+  end.
+Lemma check_dup_obj ms : check_dup (JObj ms) = dup_go [] ms.
+Proof. cbn. generalize (@nil bytes). induction ms as [|[k v] r IH]; intros seen; [reflexivity|]. cbn. rewrite IH. reflexivity. Qed.
+
+Fixpoint dup_arr (l : list json) : option dup_err :=
+  match l with
+  | [] => None
+  | x :: r => match check_dup x with Some e => Some e | None => dup_arr r end
+  end.
+Lemma check_dup_arr l : check_dup (JArr l) = dup_arr l.
+Proof. cbn. induction l as [|x r IH]; [reflexivity|]. cbn. rewrite IH. reflexivity. Qed.
+
+Lemma dup_go_none : forall l seen, dup_go seen l = None ->
+  NoDup (map fst l) /\ (forall k, In k (map fst l) -> ~ In k seen).
+Proof.
+  induction l as [|[k v] r IH]; intros seen H; cbn in *.
+  - split; [constructor|intros ? []].
+  - destruct (mem_bytes k seen) eqn:M; [discriminate|]. destruct (check_dup v); [discriminate|].
+    destruct (IH _ H) as [ND NS]. split.
+    + constructor; [|exact ND]. intros Hin. apply (NS k Hin). left. reflexivity.
+    + intros k' [<-|Hin].
+      * intros HS. apply mem_bytes_in in HS. congruence.
+      * intros HS. apply (NS k' Hin). right. exact HS.
+Qed.
+
+Lemma sort_members_in x l : In x (sort_members l) <-> In x l.
+Proof.
+  unfold sort_members. induction l as [|y l IH]; cbn; [tauto|].
+  assert (INS : forall z m, In x (insert_member z m) <-> x = z \/ In x m).
+  { intros z m. induction m as [|w m IHm]; cbn; [intuition|].
+    destruct (bytes_leb (fst z) (fst w)); cbn; [intuition|]. rewrite IHm. intuition. }
+  rewrite INS, IH. intuition.
+Qed.
+
+Lemma flat_map_nil {A B} (f : A -> list B) l : (forall x, In x l -> f x = []) -> flat_map f l = [].
+Proof. induction l as [|x l IH]; intros H; [reflexivity|]. cbn. rewrite H by (left; reflexivity). apply IH. intros; apply H; right; assumption. Qed.
+
+Lemma has_key_in k ms : has_key k ms = true <-> In k (map fst ms).
+Proof.
+  induction ms as [|[k' v] r IH]; cbn; [split; [discriminate|tauto]|].
+  rewrite orb_true_iff, IH. destruct (bytes_eqb_spec k k'); split; intros; auto.
+  - destruct H as [?|?]; [discriminate|auto].
+  - destruct H as [?|?]; [congruence|auto].
+Qed.
+
+(* ---------- rejection ---------- *)
+Lemma cerr_ok_inv ms : examine_json 0 ce_fields (Some (JObj ms)) = JOk ms \/
+                       exists f, examine_json 0 ce_fields (Some (JObj ms)) = JErr f.
+Proof.
+  unfold examine_json. destruct (typed_ok ce_fields ms); [|eauto].
+  destruct (check_dup (JObj ms)) as [[|]|]; eauto.
+Qed.
+
+Lemma flags_missing_code_proof : forall ms, ~ In (bs "code") (map fst ms) ->
+  examine_connect_error (Some (JObj ms)) <> [].
+Proof.
+  intros ms H. unfold examine_connect_error. destruct (cerr_ok_inv ms) as [E|(f & E)]; rewrite E; [|discriminate].
+  destruct (has_key (bs "code") ms) eqn:HK; [apply has_key_in in HK; contradiction|].
+  intros C. apply app_eq_nil in C as [_ C]. discriminate C.
+Qed.
+
+Lemma flags_unknown_key_proof : forall ms k v, In (k, v) ms ->
+  k <> bs "code" -> k <> bs "message" -> k <> bs "details" ->
+  examine_connect_error (Some (JObj ms)) <> [].
+Proof.
+  intros ms k v Hin N1 N2 N3. unfold examine_connect_error.
+  destruct (cerr_ok_inv ms) as [E|(f & E)]; rewrite E; [|discriminate].
+  intros C. apply app_eq_nil in C as [C _].
+  assert (HI : In (JKey 0) (flat_map ce_key_fb (sort_members ms))).
+  { apply in_flat_map. exists (k, v). split; [apply sort_members_in, Hin|]. unfold ce_key_fb.
+    destruct (bytes_eqb_spec k (bs "code")); [congruence|]. destruct (bytes_eqb_spec k (bs "message")); [congruence|].
+    destruct (bytes_eqb_spec k (bs "details")); [congruence|]. left. reflexivity. }
+  rewrite C in HI. destruct HI.
+Qed.
+
+Lemma flags_bad_code_proof : forall ms v, In (bs "code", v) ms ->
+  (forall s, v = JStr s -> ~ In s c13_code_names) ->
+  examine_connect_error (Some (JObj ms)) <> [].
+Proof.
+  intros ms v Hin HB. unfold examine_connect_error.
+  destruct (cerr_ok_inv ms) as [E|(f & E)]; rewrite E; [|discriminate].
+  intros C. apply app_eq_nil in C as [C _].
+  assert (HI : exists f, In f (flat_map ce_key_fb (sort_members ms))).
+  { destruct v; try (exists CeCodeKind; apply in_flat_map; eexists; split; [apply sort_members_in, Hin|left; reflexivity]).
+    assert (M : mem_bytes s c13_code_names = false).
+    { destruct (mem_bytes s c13_code_names) eqn:M; [|reflexivity]. apply mem_bytes_in in M. exfalso. eapply HB; eauto. }
+    exists CeCodeName. apply in_flat_map. eexists. split; [apply sort_members_in, Hin|].
+    change (ce_key_fb (bs "code", JStr s)) with (if mem_bytes s c13_code_names then [] else [CeCodeName]).
+    rewrite M. left. reflexivity. }
+  destruct HI as (f & HI). rewrite C in HI. destruct HI.
+Qed.
+
+Lemma flags_duplicate_key_proof : forall ms, ~ NoDup (map fst ms) ->
+  examine_connect_error (Some (JObj ms)) <> [] /\ examine_connect_end_stream (Some (JObj ms)) <> [].
+Proof.
+  intros ms H.
+  assert (D : check_dup (JObj ms) <> None).
+  { rewrite check_dup_obj. intros C. apply dup_go_none in C as [ND _]. contradiction. }
+  split.
+  - unfold examine_connect_error, examine_json. destruct (typed_ok ce_fields ms); [|discriminate].
+    destruct (check_dup (JObj ms)) as [[|]|]; [discriminate|discriminate|congruence].
+  - unfold examine_connect_end_stream, examine_json. destruct (typed_ok es_fields ms); [|discriminate].
+    destruct (check_dup (JObj ms)) as [[|]|]; [discriminate|discriminate|congruence].
+Qed.
+
+Lemma flags_not_an_object_proof : forall t, (forall ms, t <> Some (JObj ms)) ->
+  examine_connect_error t <> [] /\ examine_connect_end_stream t <> [].
+Proof.
+  intros t H. unfold examine_connect_error, examine_connect_end_stream, examine_json.
+  destruct t as [[| | | | |ms]|]; try (split; discriminate). exfalso. eapply H. reflexivity.
+Qed.
+
+(* ---------- acceptance: a conformant rendering of an error ---------- *)
+Definition render_detail (d : bytes * bytes) : json :=
+  JObj [(bs "type", JStr (fst d)); (bs "value", JStr (b64_encode (snd d)))].
+Definition render_connect_error (name : bytes) (msg : option bytes) (details : list (bytes * bytes)) : json :=
+  JObj ((bs "code", JStr name) ::
+        (match msg with Some m => [(bs "message", JStr m)] | None => [] end) ++
+        (match details with [] => [] | _ => [(bs "details", JArr (map render_detail details))] end)).
+
+Lemma detail_clean d : fullname_valid (fst d) = true -> Forall is_byte (snd d) ->
+  examine_connect_error_detail (Some (render_detail d)) = [] /\ check_dup (render_detail d) = None.
+Proof.
+  destruct d as [ty v]. cbn [fst snd]. intros FN HB. destruct (b64_roundtrip _ HB) as (R & _ & _). split; [|reflexivity].
+  unfold examine_connect_error_detail, render_detail. cbn -[fullname_valid b64_decode_raw b64_encode]. rewrite FN, R. reflexivity.
+Qed.
+
+Lemma details_clean ds :
+  Forall (fun d => fullname_valid (fst d) = true /\ Forall is_byte (snd d)) ds ->
+  flat_map (fun d => examine_connect_error_detail (Some d)) (map render_detail ds) = [] /\
+  dup_arr (map render_detail ds) = None.
+Proof.
+  induction 1 as [|d ds [FN HB] _ [IH1 IH2]]; [split; reflexivity|].
+  destruct (detail_clean d FN HB) as [E1 E2]. split.
+  - cbn [map flat_map]. rewrite E1, IH1. reflexivity.
+  - cbn [map dup_arr]. rewrite E2. exact IH2.
+Qed.
+
+Lemma connect_error_clean_proof : forall name msg details,
+  In name c13_code_names ->
+  Forall (fun d => fullname_valid (fst d) = true /\ Forall is_byte (snd d)) details ->
+  examine_connect_error (Some (render_connect_error name msg details)) = [].
+Proof.
+  intros name msg details HN HD. destruct (details_clean details HD) as [D1 D2].
+  assert (M : mem_bytes name c13_code_names = true) by (apply mem_bytes_in, HN).
+  unfold render_connect_error.
+  destruct msg as [m|]; destruct details as [|d0 ds]; cbn [app];
+    unfold examine_connect_error, examine_json;
+    match goal with |- context [check_dup ?T] =>
+      assert (CD : check_dup T = None)
+        by (rewrite check_dup_obj; cbn [dup_go]; rewrite ?check_dup_arr, ?D2; reflexivity)
+    end;
+    rewrite CD;
+    cbn -[mem_bytes c13_code_names examine_connect_error_detail render_detail]; rewrite M;
+    try reflexivity.
+  all: cbn [map] in D1; cbn [flat_map] in D1 |- *; rewrite ?app_nil_r; try exact D1.
+Qed.
+
+(* ====================================================================== *)
+(* examineWireDetails: cannot crash; HTTP trailers outside gRPC are flagged *)
+(* ====================================================================== *)
+Lemma examine_wire_part1 unmarshal w : exists fbs tail, examine_wire unmarshal w = Done (fbs ++ tail) /\
+  tail = (if negb (bytes_eqb (w_ctype w) (bs "application/grpc")) && negb (has_prefix (bs "application/grpc+") (w_ctype w))
+             && Nat.ltb 0 (length (w_trailers w)) then [HttpTrailers] else []).
+Proof.
+  unfold examine_wire. cbv zeta.
+  match goal with |- context [lift ?P _] => assert (P1 : exists f, P = Done f) end.
+  { repeat match goal with
+           | |- exists f, (if ?b then _ else _) = Done f => destruct b
+           | |- exists f, (match w_eos w with Some _ => _ | None => _ end) = Done f => destruct (w_eos w)
+           end; eauto; try apply check_grpc_status_total_proof.
+    destruct (examine_total_proof b) as (f & hs & E). rewrite E.
+    destruct (check_grpc_status_total_proof unmarshal hs) as (g & G). unfold lift. rewrite G. eauto. }
+  destruct P1 as (f & P1). rewrite P1. unfold lift. eexists. eexists. split; reflexivity.
+Qed.
+
+Lemma examine_wire_total_proof : forall unmarshal w, exists fbs, examine_wire unmarshal w = Done fbs.
+Proof. intros u w. destruct (examine_wire_part1 u w) as (f & t & E & _). eauto. Qed.
+
+Lemma flags_http_trailers_outside_grpc_proof : forall unmarshal w,
+  w_ctype w <> bs "application/grpc" -> has_prefix (bs "application/grpc+") (w_ctype w) = false ->
+  w_trailers w <> [] ->
+  exists fbs, examine_wire unmarshal w = Done fbs /\ In HttpTrailers fbs.
+Proof.
+  intros u w N1 N2 N3. destruct (examine_wire_part1 u w) as (f & t & E & T).
+  exists (f ++ t). split; [exact E|]. apply in_or_app. right. rewrite T, N2.
+  destruct (bytes_eqb_spec (w_ctype w) (bs "application/grpc")); [congruence|].
+  destruct (w_trailers w); [congruence|]. left. reflexivity.
+Qed.
+
+Lemma encoders_total_proof : forall marshal code msg details trailers, Forall is_byte msg ->
+  (exists e, percent_encode msg = Done e) /\
+  (exists st, grpc_status_trailers marshal code msg details = Done st) /\
+  (exists blk, grpc_web_end_stream marshal code msg details trailers = Done blk).
+Proof.
+  intros marshal code msg details trailers HB.
+  destruct (percent_scan_ok_proof msg HB) as (e & E & _).
+  destruct (trailer_message_ok msg HB) as (t & T & _).
+  split; [eauto|]. unfold grpc_web_end_stream, grpc_status_trailers. rewrite T. split; eauto.
+Qed.
